@@ -7,8 +7,7 @@ from sa.idioms import reach_under, guarded, combine, attr_truth, infeasible_edge
 from sa.raises import caught_by
 from sa.project import dotted, walk_local, AnalysisError
 
-EXPLANATION = (
-    "Reply discipline of the controller decided on the source: R1 wire-taint "
+EXPLANATION = (    "Reply discipline of the controller decided on the source: R1 wire-taint "
     "totality - every attribute access, method call, subscript or iteration on "
     "a value that came out of json.loads (and values derived from it) is either "
     "guarded by an isinstance test of a type on which the operation is valid, or "
@@ -24,7 +23,9 @@ EXPLANATION = (
     "in a catch-all, each replying; R8 both client call() methods return only a "
     "reply whose id equals the call id and turn undecodable replies into "
     "CallError; R9 the configured client timeout reaches the receive and expiry "
-    "raises. Decides these necessary conditions, not byte-level JSON validity.")
+    "raises."
+    "R4 also requires the cast flag to be handed to every reply call once it is known. "
+    "Decides these necessary conditions, not byte-level JSON validity.")
 ASSUMPTIONS = ["ZMQ frames are bytes; a message that is not a (cid, msg) pair is dropped by "
                "design", "send_error/send_ok/send_response are total for dict arguments "
                "(they catch IOError/ZMQError themselves)"]
